@@ -52,14 +52,16 @@ def cargo_build(pkg_dir, target_dir, args, rustflags="", toolchain=None, extra_e
     return rc, out, err
 
 
-def build_monitor(binname, hooks=True):
-    """Build one monitor binary of the harness against /repo's current working tree."""
-    tdir = os.path.join(BUILD, "harness" if hooks else "harness-nohooks")
+def build_monitor(binname, hooks=True, release_checked=False):
+    """Build one monitor binary of the harness against /repo's current working tree.
+    release_checked: release profile (debug_assertions off) + rrtk/dim_check_release (checking still on)."""
+    tdir = os.path.join(BUILD, ("harness" if hooks else "harness-nohooks") + ("-relchk" if release_checked else ""))
     flags = "--cfg rrtk_verif" if hooks else ""
-    rc, out, err = cargo_build(HARNESS, tdir, ["--bin", binname], rustflags=flags)
+    args = ["--bin", binname] + (["--release", "--features", "dim_release"] if release_checked else [])
+    rc, out, err = cargo_build(HARNESS, tdir, args, rustflags=flags)
     if rc != 0:
         raise Inconclusive("monitor %s does not build against the current tree:\n%s" % (binname, err[-3000:]))
-    return os.path.join(tdir, "debug", binname)
+    return os.path.join(tdir, "release" if release_checked else "debug", binname)
 
 
 def run_shards(binpath, prop, tier, seed, nshards, extra=(), timeout=None, tag="native"):
